@@ -118,7 +118,10 @@ let wfeval () =
      | "SRC" -> let name = str k in let l = ref [] in while more k do l := str k :: !l done; nodes := NSrc (name, List.rev !l) :: !nodes
      | "PSRC" -> let name = str k in let l = ref [] in while more k do l := str k :: !l done; nodes := NPSrc (name, List.rev !l) :: !nodes
      | "S2S" -> let name = str k in let u = nat_of_int (int k) in let up = str k in nodes := NS2S (name, u, up) :: !nodes
-     | "COMP" -> let _ = next k in let name = str k in nodes := NSrc (name, []) :: !nodes
+     | "COMP" ->
+       let kind = next k in let name = str k in
+       if kind = "maptags" then (let key = str k in let u = nat_of_int (int k) in let up = str k in nodes := NMapTags (name, u, up, key) :: !nodes)
+       else nodes := NSrc (name, []) :: !nodes
      | "REC" | "PREC" -> let name = str k in nodes := NSrc (name, []) :: !nodes
      | "PROC" ->
        let name = str k in
@@ -150,7 +153,7 @@ let wfeval () =
   done with End_of_file -> ());
   match eval (List.rev !nodes) (List.rev !targets) (List.rev !files) with
   | WNotReady -> print_endline "STATUS notready"
-  | WDone (tasks, fs, failed) ->
+  | WDone (tasks, fs, failed, aud) ->
     Printf.printf "STATUS done %d\n" (if failed then 1 else 0);
     List.iter (fun t ->
       let b = Buffer.create 256 in
@@ -171,7 +174,12 @@ let wfeval () =
       add (if t.tr_emitted then "1" else "0");
       print_endline (Buffer.contents b)) tasks;
     let l = List.sort compare (List.map (fun (p, c) -> (of_l p, of_l c)) fs) in
-    List.iter (fun (p, c) -> Printf.printf "FILE %s %s\n" (hex p) (hex c)) l
+    List.iter (fun (p, c) -> Printf.printf "FILE %s %s\n" (hex p) (hex c)) l;
+    let rec ser (ARec (proc, cmd, params, tags, outs, up)) =
+      let kv l = string_of_int (List.length l) :: List.concat_map (fun (a, b) -> [hexl a; hexl b]) (List.sort compare l) in
+      String.concat " " ([hexl proc; hexl cmd] @ kv params @ kv tags @ kv outs
+                         @ [string_of_int (List.length up)] @ List.concat_map (fun (p, r) -> [hexl p; ser r]) (List.sort (fun (a, _) (b, _) -> compare a b) up)) in
+    List.iter (fun (p, r) -> Printf.printf "AUDIT %s %s\n" (hexl p) (ser r)) aud
 
 let () =
   let sub = Sys.argv.(1) in
